@@ -285,6 +285,9 @@ def c11_tree(rng, depth, doc=None):
     if depth <= 0 or rng.random() < 0.4:
         return c11_leaf(rng, doc)
     op = rng.choice(["and", "or", "xor"])
+    if rng.random() < 0.06:
+        sub = c11_tree(rng, depth - 1, doc)
+        return (rng.choice(["and", "or", "xor", "xor"]), sub, sub)     # ONE object as both operands (c ^ c)
     l, r = c11_tree(rng, depth - 1, doc), c11_tree(rng, depth - 1, doc)
     return (op, l, r)
 
